@@ -62,7 +62,7 @@ def model(case, lin):
 def evaluate(case):
     s, w, obs = combo.run(case, expr_of(case))
     viols = []
-    info = {"end": obs["end"], "concurrent": combo.concurrent(obs["events"])}
+    info = {"end": obs["end"], "concurrent": combo.concurrent(obs["events"]), "steps": s.steps}
     comb = case["comb"]
 
     def bad(sig, **detail):
@@ -198,10 +198,25 @@ def enum_cases(maxn, part, parts):
             yield {"comb": comb, "n": n, "args": list(range(n)), "threads": [evs], "tape": [], "max_steps": 10 ** 6}
 
 
+def conc_catalog():
+    """Inputs completed by two or three threads at the same virtual instant (single pre-emption sweeps)."""
+    out = {}
+    for comb in ("f_zip", "f_sequence", "f_traverse"):
+        for kinds in (("V", "V"), ("V", "E"), ("E", "E"), ("V", "C"), ("C", "E"), ("V", "V", "V"), ("V", "E", "V")):
+            threads = [[["c", i] + spec_of(k, i)] for i, k in enumerate(kinds)]
+            out["%s/%s" % (comb, "".join(kinds))] = {"comb": comb, "n": len(kinds), "args": list(range(len(kinds))), "threads": threads, "tape": []}
+        # the output is cancelled while the inputs complete
+        out["%s/VV+x" % comb] = {"comb": comb, "n": 3, "args": [0, 1, 2], "threads": [[["c", 0] + spec_of("V", 0)], [["c", 1] + spec_of("V", 1)], [["x"]]], "tape": []}
+    return out
+
+
 def shards(tier, seed):
     parts = 12
     maxn = 4 if tier == "quick" else 5
     specs = [{"mode": "enum", "maxn": maxn, "part": i, "parts": parts} for i in range(parts)]
+    cc = sorted(conc_catalog())
+    for i in range(0, len(cc), 3):
+        specs.append({"mode": "conc", "entries": cc[i:i + 3], "double": tier == "thorough"})
     n = 300 if tier == "quick" else 5000
     for i in range(8):
         specs.append({"mode": "random", "seed": seed * 1000 + i, "n": n})
@@ -247,6 +262,28 @@ def run_shard(spec, ctx):
             k += 1
         ctx.exhaustive.append({"domain": "f_zip/f_sequence/f_traverse: outcome kinds^n x completion orders, n<=%d; n=0; pre-done masks, duplicates, output-cancel positions, fn raising at k (n<=3); n=1000 reversed (part %d/%d)" % (spec["maxn"], spec["part"], spec["parts"]),
                                "size": k, "complete": True})
+    elif spec["mode"] == "conc":
+        cat = conc_catalog()
+        for name in spec["entries"]:
+            base = cat[name]
+            v, info = evaluate(base)
+            account(ctx, base, v, info, ["conc"])
+            n = info.get("steps", 0)
+            count = 1
+            for i in range(n + 1):
+                for p in (0, 1):
+                    c = dict(base, tape=[[i, p]])
+                    v, info = evaluate(c)
+                    account(ctx, c, v, info, ["conc1"])
+                    count += 1
+                    if spec.get("double"):
+                        for j in range(12):
+                            c = dict(base, tape=[[i, p], [j, 0]])
+                            v, info = evaluate(c)
+                            account(ctx, c, v, info, ["conc2"])
+                            count += 1
+            ctx.exhaustive.append({"domain": "concurrent completion of %s: every single pre-emption%s" % (name, " and windowed pairs" if spec.get("double") else ""),
+                                   "size": count, "complete": True})
     else:
         progs.random_search(ctx, spec, case_strategy(), evaluate, account)
 
